@@ -302,7 +302,8 @@ pub struct Minimiser {
 
 impl Minimiser {
     fn fails(&mut self, t: &Op) -> bool {
-        let cost = 50 + t.s.len() as u64;
+        // cost of a candidate: every node of the tree (an entry with 40 000 sub-elements is dear)
+        let cost = 50 + t.size() as u64;
         if self.budget < cost {
             self.budget = 0;
             return false;
